@@ -246,6 +246,10 @@ def adjust_leftover_buffer(buffers: deque[memoryview], nbytes: int) -> None:
         else:
             buffers.appendleft(b[nbytes:])
             break
+    # Do not leave exhausted (zero-length) buffers at the head: nothing can be sent from them,
+    # so a caller looping on "while buffers" would spin forever (sendmsg() keeps returning 0).
+    while buffers and buffers[0].nbytes == 0:
+        del buffers[0]
 
 
 def is_socket_connected(sock: ISocket) -> bool:
